@@ -67,6 +67,25 @@ def run_oracle_over(ctx, stream, ops):
                           {"stream": stream, "ops": lines[s:e], "oracle_verdict": v}, True)
 
 
+# Known finding of C07 (listed for the coordinator in notes/C07.md; a local copy is used until
+# known-findings.json carries the same fingerprint - BUILDING.md "test with a local copy of the entry").
+LOCAL_KNOWN = [{
+    "property_id": "C07",
+    "status": "known",
+    "fingerprint": "scope:dr-not-exported:legacy-merge-flag-off",
+    "what": ("with ENABLE_ENHANCED_DESTINATIONRULE_MERGE=false (legacy, non-default) mergeDestinationRule consolidates "
+             "DestinationRules of one host and namespace regardless of exportTo, so a rule exported to ns2 only is merged into a "
+             "public rule and shapes the clusters of proxies in ns3 (O4; Lean witness dr_export_legacy_merge_witness)"),
+}]
+
+
+def add_local_known(ctx):
+    have = {k.get("fingerprint") for k in ctx.known}
+    for k in LOCAL_KNOWN:
+        if k["fingerprint"] not in have:
+            ctx.known.append(k)
+
+
 def private_bin(ctx):
     """Other runs (other checks, a second run of this one) rebuild harness/bin concurrently and remove the
     binary first; run from a private copy so that this run never loses its executable half way."""
@@ -82,6 +101,7 @@ def private_bin(ctx):
 
 
 def run(ctx):
+    add_local_known(ctx)
     ctx.rule = ("host: 1-6 hostname pairs per case over labels {a,b,c,com,foo,svc,x-y,a1} with `*.`, `*`, bare `*`, `**.`, inner-star, "
                 "leading-dot and empty forms, second name derived from the first (parent wildcard, added label, dropped wildcard). "
                 "vis: 2-12 services over 2-4 namespaces, every exportTo form (unset, *, ., ~, one/two namespaces, own namespace, "
@@ -138,6 +158,7 @@ def replay(ctx, path):
     if not ops:
         ctx.log("replay file has no ops; re-running the full check")
         return run(ctx)
+    add_local_known(ctx)
     if not (ctx.build_drv() and ctx.go_build()):
         return
     private_bin(ctx)
